@@ -154,7 +154,7 @@ def _gen_dominances(s, mains):
   """Acyclic dominance pairs (dominant before weak in `mains` order); several
   pairs may share a feature."""
   cand = [(i, j) for i in range(len(mains)) for j in range(i + 1, len(mains))]
-  k = s.integer(1, min(3, len(cand)))
+  k = s.integer(min(2, len(cand)), min(3, len(cand)))
   idx = sorted(s.permutation(len(cand))[:k])
   return [{"dominant": mains[cand[i][0]], "weak": mains[cand[i][1]]}
           for i in idx]
@@ -275,7 +275,7 @@ class PremadeBuilder(object):
     model["trusts"] = []
     model["dominances"] = []
     if (param == "all_vertices" and structure in (None, "explicit") and
-        kind != "linear" and s.chance(0.4)):
+        kind != "linear" and s.chance(0.5)):
       names = [f["name"] for f in feats]
       # Lattice dimensions are increasing for every constrained feature
       # (decreasing ones are flipped by their calibrator).
